@@ -63,8 +63,14 @@ def validate_pipeline_traces(run, traced, label="pipeline_trace_validation", min
 
     def one(j):
         ri, ii, path, inst, desc = j
-        r = tlc("Trace_Pipeline", "Trace_Pipeline.cfg", os.path.join(run.wd, "tlc_%s_%d_%d" % (label[:4], ri, ii)), env={"TRACE": path}, workers=1, timeout=600,
-                xmx="2g", dfs=True, collect_replays=False)
+        for attempt in range(3):
+            r = tlc("Trace_Pipeline", "Trace_Pipeline.cfg", os.path.join(run.wd, "tlc_%s_%d_%d_%d" % (label[:4], ri, ii, attempt)), env={"TRACE": path}, workers=1, timeout=600,
+                    xmx="1g", dfs=True, collect_replays=False)
+            # a JVM that could not start or was starved (many validators run side by side) gives no verdict at all: try again
+            if r.violation or any(x.startswith('<<"ACCEPTED"') or x.startswith('<<"REJECTED"') for x in r.prints):
+                break
+            log("[trace validation] no verdict from TLC (attempt %d) on %s: %s" % (attempt + 1, os.path.basename(path), " | ".join(r.out.splitlines()[-4:])[:300]))
+            time.sleep(1 + attempt)
         return j, r
     with ThreadPoolExecutor(max_workers=max(2, NCPU // 2)) as ex:
         res = list(ex.map(one, jobs))
